@@ -250,6 +250,7 @@ def twoColW (msb width : Int) (pct : Pct) : Int × Int :=
   let (num, exp) :=
     if pct.neg ∨ pct.num == 0 then (0, 0)
     else if pct.num > 2 ^ pct.exp then (1, 0) else (pct.num, pct.exp)
+  let msb := if msb < 0 then 0 else msb
   let minWidth := msb + 2 + 2
   let width := if width < minWidth then minWidth else width
   let avail := width - msb
@@ -263,7 +264,8 @@ theorem insertTwoColumnsOpts_unfold {α : Type} [DecidableEq α] (cx : Ctx α) (
     ed.insertTwoColumnsOpts cx pos l r msb width pct o =
       if l.isEmpty ∧ r.isEmpty then pure ed
       else if (twoColW msb width pct).2 < 2 then throw .explicit
-      else twoColBody cx ed pos l r msb (twoColW msb width pct).1 (twoColW msb width pct).2 o :=
+      else twoColBody cx ed pos l r (if msb < 0 then 0 else msb) (twoColW msb width pct).1
+        (twoColW msb width pct).2 o :=
   rfl
 
 section vocab
@@ -309,7 +311,7 @@ theorem insertTwoColumnsOpts_bridge_gen (hV : VocabStable V = true) (hsp : [0x20
   · rfl
   · split
     · rfl
-    · exact twoColBody_bridge hV hsp hhy hspTail ed ht pos l r hl hr gap _ _ o hS
+    · exact twoColBody_bridge hV hsp hhy hspTail ed ht pos l r hl hr _ _ _ o hS
 
 end vocab
 
